@@ -362,7 +362,7 @@ if ( jcol==BADCOL )
  		    /* Append new fills in panel_lsub[*,jj]. */
 		    j = w_lsub_end[jj - jcol];
 /*#pragma ivdep*/
-		    for (k = xlsub[krep]; k < xlsub_end[krep]; ++k) {
+		    for (k = xlsub[fsupc] + krep - fsupc; k < xlsub_end[fsupc]; ++k) {
 			ksub = lsub[k];
 			if ( col_marker[ksub] != jj ) {
 			    col_marker[ksub] = jj;
@@ -394,7 +394,11 @@ if ( jcol==BADCOL )
 	    /* Append new fills in panel_lsub[*,jj]. */
 	    j = w_lsub_end[jj - jcol];
 /*#pragma ivdep*/
-	    for (k = xlsub[krep]; k < xlsub_end[krep]; ++k) {
+	    /* Scan the supernode's own subscript list from the row of "krep"
+	       on: it holds the same rows as the copy kept for column "krep",
+	       but that copy is partitioned in place by pxgstrf_pruneL() of a
+	       busy panel between this supernode and the current panel. */
+	    for (k = xlsub[fsupc] + krep - fsupc; k < xlsub_end[fsupc]; ++k) {
 	        ksub = lsub[k];
 		if ( col_marker[ksub] != jj ) {
 		    col_marker[ksub] = jj;
